@@ -62,6 +62,18 @@ type Tracer struct {
 
 	// window constraint: goroutine of role A waits at point X until role B passed Y
 	win *window
+
+	// steering: number of live work items per worker id (created by rw.enq new=true, gone at pq.retire);
+	// a group that ever had two at once is suspect, and its callbacks linger so that an overlap shows
+	live    map[string]int
+	suspect map[string]bool
+}
+
+// Suspect tells whether two work items of the group were alive at the same time.
+func (t *Tracer) Suspect(group string) bool {
+	t.mu.Lock()
+	defer t.mu.Unlock()
+	return t.suspect[group]
 }
 
 type waiter struct {
@@ -154,6 +166,24 @@ func (t *Tracer) Hook(point string, args ...interface{}) {
 		}
 	}
 	t.events = append(t.events, Event{Seq: t.seq, G: g, Role: role, Point: point, Args: args})
+	switch point {
+	case "rw.enq":
+		if wid, _ := args[0].(string); wid != "" && len(args) > 1 && args[1] == true {
+			if t.live == nil {
+				t.live, t.suspect = map[string]int{}, map[string]bool{}
+			}
+			t.live[wid]++
+			if t.live[wid] > 1 {
+				t.suspect[wid] = true
+			}
+		}
+	case "pq.retire":
+		if wid, _ := args[0].(string); wid != "" && t.live[wid] > 0 {
+			t.live[wid]--
+		}
+	case "sv.init":
+		t.live = map[string]int{} // work items of the previous life are gone
+	}
 	var w *waiter
 	if atomic.LoadInt32(&t.free) == 0 && t.gated[point] && role != "" && !inLock[point] && gateApplies(point, role) {
 		w = &waiter{g: g, role: role, point: point, ch: make(chan struct{})}
